@@ -70,8 +70,16 @@ var reClock = regexp.MustCompile(`\d\.\d+e\+09`)
 
 func maskClock(s string) string { return reClock.ReplaceAllString(s, "<clock>") }
 
+// repoRoot is /repo; VERIF_REPO points development runs (seeded changes evaluated in parallel) at a scratch copy.
+func repoRoot() string {
+	if d := os.Getenv("VERIF_REPO"); d != "" {
+		return d
+	}
+	return "/repo"
+}
+
 func exampleScripts() []string {
-	fs, _ := filepath.Glob("/repo/example/*.bn")
+	fs, _ := filepath.Glob(filepath.Join(repoRoot(), "example/*.bn"))
 	sort.Strings(fs)
 	return fs
 }
